@@ -47,7 +47,7 @@ UNPROVED = [
     "VarDecl.v models the order of the effects of a declaration only: must_declare_at_runtime / must_define_at_runtime / `not defined` branches, the require branch and visitors.Assign are not modelled (vardecl stream and builds only)",
     "expressions whose functions write variables: order of unsequenced operands is compiler-dependent (refuted); the positive theorem for write-free functions is C01_order_preserved_partial in coq/C01, not restated here",
     "maximum_performance, debug, sanitize, shared/static library configurations and user --cflags are not in cflags_of",
-    "compilers outside the entries deriving from gcc: the generic `cc` entry has no -fwrapv (C09_generic_cc_wraps_refuted, open finding with repair); tcc, c2m and nvcc are not modelled (nvcc exempt by name)",
+    "compilers outside the entries deriving from gcc and the generic `cc` entry used with a GNU C compiler: tcc, c2m, nvcc (exempt by name) and a non-GNU compiler reached through the generic entry are not modelled",
 ]
 THEOREM_CLASSES = {
     "C09_idiv_checked_eq_unchecked": "tripwire",      # content = the scraped position of the b == -1 line; also satisfied by two undefined runs
@@ -72,13 +72,14 @@ THEOREM_CLASSES = {
     "C09_compiler_independent_refuted": "refutation",
     "C09_base_flags_always": "main",
     "C09_gcc_derived_entries_wrap": "tripwire",       # scraped: effective base flags of every compilers_flags entry deriving from gcc (family computed)
-    "C09_generic_cc_wraps_refuted": "refutation",     # the generic `cc` entry has no -fwrapv (known finding, replayed by the wrap stream)
+    "C09_generic_cc_wraps": "main",                   # full strength since /repo b8b86ad (was _refuted); depends on the scraped generic_cc_gets_gnu_base
+    "C09_generic_cc_wraps_needed": "tripwire",        # every value of the scraped facts: the generic entry wraps only through that rule
     "C09_release_config": "main",
     "C09_plain_ops_defined_with_base_flags": "main",
     "C09_fwrapv_needed": "corollary",
 }
 MANIFEST_ENTRY = {
-    "text": "proof, partial: theorems cover (a) the run-time checks removed by nochecks/release - a passing idiv/imod/bounds/deref/integer-narrowing/check() leaves the same value with the check removed (float narrowing refuted), (b) dead code elimination - Symbol:is_used is reachability along usedby, fuel adequate, emitted = nodce or reachable, the initializer of a dropped variable is still evaluated, and the ORDER of a declaration's effects is independent of DCE (full strength since /repo d685d37; for every placement of the statements: iff dropped initializers go to defemitter), (c) the flag tables: base flags in every configuration (for every compilers_flags entry deriving from gcc; the generic `cc` entry REFUTED: open finding), release => nochecks, -O2 -DNDEBUG; + - * unary minus defined under the base flags.  Rest on differential testing only: the whole-program statement `same output in every build mode`, every -O level, gcc vs clang, all other checks.",
+    "text": "proof, partial: theorems cover (a) the run-time checks removed by nochecks/release - a passing idiv/imod/bounds/deref/integer-narrowing/check() leaves the same value with the check removed (float narrowing refuted), (b) dead code elimination - Symbol:is_used is reachability along usedby, fuel adequate, emitted = nodce or reachable, the initializer of a dropped variable is still evaluated, and the ORDER of a declaration's effects is independent of DCE (full strength since /repo d685d37; for every placement of the statements: iff dropped initializers go to defemitter), (c) the flag tables: base flags in every configuration (for every compilers_flags entry deriving from gcc, and for a GNU C compiler selected through the generic `cc` entry since /repo b8b86ad), release => nochecks, -O2 -DNDEBUG; + - * unary minus defined under the base flags.  Rest on differential testing only: the whole-program statement `same output in every build mode`, every -O level, gcc vs clang, all other checks.",
     "note": "no axioms; tie: scraped cdefs.lua/configer.lua/cbuiltins.lua/cgenerator.lua facts in Gen.v, extracted model run against the real Symbol:is_used, against the emitted helpers in checked and nochecks builds, against the real compile command line, and against default / -P nodce builds of generated declarations; depends on files of C01 and C03 (coq/C03/{CSem,Helpers,ProofsBase,ProofsDiv}.v and coq/C01/Order.v copied by checks/C01.py:sync_shared, harness/C01/{scrape,progs,vardecl}.py, harness/C03/ubdrv.nelua)",
     "technique": "Coq theorems about an executable Gallina model + generated parameters + behavioural correspondence of the extracted model; differential builds",
 }
@@ -605,8 +606,8 @@ def stream_wrap(ctx, driver, cov):
                 continue
             for k, c in enumerate(cases):
                 if k < len(lines) and lines[k] != base[k] and name in generic and not cc_wraps:
-                    # the generic `cc` entry has no -fwrapv (model: generic_cc_wraps = false, theorem
-                    # C09_generic_cc_wraps_refuted): known finding, reported on its designated witness only
+                    # only when the scraped facts say the generic `cc` entry does not wrap (not the case since /repo b8b86ad,
+                    # theorem C09_generic_cc_wraps): the former finding, reported on its designated witness only
                     n_cc += 1
                     if name == "cc" and (c[1], c[2]) == ("i32", 2147483647) and c[3] == 1 and lines[k][0] != base[k][0]:
                         ctx.violation(W_GENERIC_CC, "oracle", "`x + 1 > x` on int32 a = 2147483647: built with `--cc cc` it is %s, with the default compiler entry (gcc) %s" % (lines[k][0], base[k][0]),
@@ -680,7 +681,7 @@ def stream_wrap(ctx, driver, cov):
     elif base is not None:
         ctx.violation("harness-run:wrap-output", "harness", "wrap probe printed %d lines for %d cases" % (len(base), len(cases)), failing_input=False)
     cov["wrap"] = {"cases": len(cases), "configurations": [n for n in outs], "idioms": WRAP_IDIOMS, "differences_between_configurations": n_diff,
-                   "generic_cc_entry": {"cc_on_path": have_cc, "model_says_it_wraps": cc_wraps, "differences_predicted_by_C09_generic_cc_wraps_refuted": n_cc},
+                   "generic_cc_entry": {"cc_on_path": have_cc, "model_says_it_wraps": cc_wraps, "differences_while_the_model_says_it_does_not_wrap": n_cc},
                    "model_mismatches": n_mm, "values_the_model_leaves_undefined": n_undef}
     return len(cases) * len(outs), len(set(cases)), ["%s %d %d" % c[1:] for c in cases[:2]]
 
